@@ -208,6 +208,14 @@ func vfKindsOf(d dst.Decorations) []int {
 func vfPerType_C05(typ string) {
 	ga := &vfGen{prefix: "a", depth: 1, listLen: 1, maxDecs: 1, decPoint: typ + ".End"}
 	gb := &vfGen{prefix: "b", depth: 1, listLen: 1, maxDecs: 1, decPoint: typ + ".Start"}
+	if vfTier() == 0 {
+		// quick: one of the two siblings carries decorations (thorough: both)
+		if vfChoice("which", 2) == 0 {
+			gb.decPoint = ""
+		} else {
+			ga.decPoint = ""
+		}
+	}
 	a := ga.Node(typ)
 	b := gb.Node(typ)
 	sa := vfInt("sa", 0, 2)
